@@ -133,7 +133,8 @@ FromDict(T, cx, j) ==
         THEN Err(<<"Extra", extra, name>>)
         ELSE LET c == Combine(rs) IN IF IsOk(c) THEN Ok(<<"obj", name, c[2]>>) ELSE c
 
-Leafy(kind, j) == Ctor(kind, j)
+\* int(int), str(str), bool(bool), float(float) are the identity; everything else is the stdlib table
+Leafy(kind, j) == IF kind = j[1] /\ kind \in {"int", "str", "bool", "float"} THEN Ok(j) ELSE Ctor(kind, j)
 
 \* named tuple from the converted leading items; missing trailing items take their defaults
 Wrap2Nt(T, r) ==
